@@ -15,3 +15,6 @@ func VerifC10IsLikelyJSON(s string) bool { return isLikelyJSON(s) }
 func VerifC10ExtractFromScriptContent(content string) ([]string, error) {
 	return extractFromScriptContent(content)
 }
+
+// VerifC10SrcsetURLs exposes srcsetURLs (html.go), the srcset / data-srcset splitting helper.
+func VerifC10SrcsetURLs(value string) []string { return srcsetURLs(value) }
